@@ -5,13 +5,12 @@ import featgen, pgenlib
 
 ID = "C04"
 COQ_FILES = ["Common/Corr.v", "Model/FeaturesTables.v", "Model/Features.v", "Model/FieldView.v", "Model/RuntimeSpec.v",
-             "Model/ViewsCorr.v", "Proofs/Features.v", "Props/C04.v", "Props/C04_repaired.v"]
+             "Model/ViewsCorr.v", "Proofs/Features.v", "Props/C04.v"]
 PROPS = "Props/C04.v"
 THEOREMS = ["C04_resolve_feature_is_nearest_override", "C04_has_presence_eq_runtime", "C04_is_packed_eq_runtime",
             "C04_kind_eq_runtime", "C04_cardinality_eq_runtime", "C04_is_map_eq_runtime", "C04_is_list_eq_runtime",
             "C04_has_optional_keyword_eq_runtime", "C04_source_rules_give_no_legacy_required",
-            "C04_is_closed_eq_runtime_refuted", "C04_is_closed_eq_runtime_partial",
-            "C04_required_numbers_eq_runtime_refuted", "C04_required_numbers_eq_runtime_partial"]
+            "C04_is_closed_eq_runtime", "C04_required_numbers_eq_runtime"]
 AXIOMS_OK = []
 TRUSTED = ["hand-written Gallina models: Model/Features.v (internal/editions.ResolveFeature, GetFeatureDefault, GetEditionDefaults, linker resolveFeature, protoutil.ResolveFeature), Model/FieldView.v (fldDescriptor.Cardinality/Kind/HasPresence/IsPacked/HasOptionalKeyword/IsMap/IsList, enumDescriptor.IsClosed, msgDescriptor.RequiredNumbers)",
            "Model/RuntimeSpec.v: transcription of protobuf-go v1.36.11 protodesc/filedesc rules (mergeEditionFeatures, initFieldsFromDescriptorProto, desc_resolve.go, filedesc.Field/Extension accessors); validated on every run against protodesc.NewFile on every generated element",
@@ -22,11 +21,11 @@ ASSUMPTIONS = ["the agreement theorems assume wf_field / wf_enum (Model/RuntimeS
                "attributes outside the modelled vector (names, numbers, JSON/text names, defaults, ranges, map key/value, oneof membership, services) are compared impl-vs-runtime only (direct oracle), not modelled"]
 
 FEATS = featgen.FEATURES
-# set to True when msgDescriptor.RequiredNumbers has been repaired in the repository (select on Cardinality());
-# then also claim Props/C04_repaired.v C04_required_numbers_eq_runtime instead of the _refuted/_partial pair
-REQUIRED_NUMBERS_REPAIRED = False
-CHK = "views_chk_rn_repaired" if REQUIRED_NUMBERS_REPAIRED else "views_chk"
-
+# The model mirrors the repaired code (fixes C04-required-numbers, C04-is-closed-unknown, C04-map-enum-first-value);
+# the refutations of the code before the repairs are kept as lemmas in Proofs/Features.v. The direct oracle keeps
+# the three keys of the old findings, so a recurrence is reported as a violation.
+REQUIRED_NUMBERS_REPAIRED = True
+CHK = "views_chk"
 
 # ------------------------------------------------------------------------------------------------
 def pregen():
